@@ -454,6 +454,12 @@ class DataJet:
     @func_adl_parameterized_call(cb_prop)
     @property
     def attr(self): ...
+# a second parameterized property, on another class, built on the SAME getter function with another callback
+def cb_prop2(s, a, param):
+    LOG.append(("prop2", param, ast.unparse(a)))
+    return s.MetaData({"cb": "prop2"}), a, float
+class OtherJet:
+    attr = func_adl_parameterized_call(cb_prop2)(property(DataJet.__dict__["attr"].fget))
 class Jet:
     @func_adl_callback(cb_m)
     def pt(self) -> float: ...
@@ -469,10 +475,29 @@ class Jet:
 # a model collection declaring an operator of its own, with its own parameter name
 class JetColl(Iterable[T]):
     def Where(self, test) -> "JetColl[T]": ...
+# a registered collection class that has the stream interface by delegation (it does not derive from ObjectStream)
+from typing import Any, Generic
+from func_adl import ObjectStream, register_func_adl_os_collection
+@register_func_adl_os_collection
+class DuckColl(Generic[T]):
+    def __init__(self, a, item_type=Any):
+        self._stream = ObjectStream(a, item_type)
+    @property
+    def query_ast(self): return self._stream.query_ast
+    @property
+    def item_type(self): return self._stream.item_type
+    def Select(self, f, **kwargs):
+        r = self._stream.Select(f, **kwargs)
+        return DuckColl(r.query_ast, r.item_type)
+    def Where(self, f, **kwargs):
+        r = self._stream.Where(f, **kwargs)
+        return DuckColl(r.query_ast, r.item_type)
 class Evt:
     def met(self) -> float: ...
     def djet(self) -> DataJet: ...
     def jets(self) -> JetColl[Jet]: ...
+    def duck_jets(self) -> DuckColl[Jet]: ...
+    def ojet(self) -> OtherJet: ...
 def q_prop(ds): return ds.Select("lambda e: e.djet().attr['a'](1)")
 def q_func(ds): return ds.Select(lambda e: scale_impl_c09(e.met()))
 def q_func_nested(ds): return ds.Select(lambda e: e.jets().Select(lambda j: scale_impl_c09(j.pt(), by=3.0)))
@@ -496,6 +521,9 @@ def q_wrapped_method2(ds): return ds.Select("lambda e: e.jets().Where(lambda j: 
 def q_own_kw(ds): return ds.Select("lambda e: e.jets().Where(test=lambda j: j.pt() > 30).Count()")
 # a call site in the DEFAULT value of a parameter of a nested / stage lambda (evaluated where the lambda is written)
 def q_default_nested(ds): return ds.Select("lambda e: e.jets().Where(lambda j, *, cut=scale_impl_c09(e.met()): j.pt() > cut).Count()")
+def q_duck_collection(ds): return ds.Select("lambda e: e.duck_jets().Select(lambda j: j.pt())")
+def q_duck_collection_where(ds): return ds.Select("lambda e: e.duck_jets().Where(lambda j: j.eta() > 1).Select(lambda j: j.pt())")
+def q_prop_other(ds): return ds.Select("lambda e: e.ojet().attr['b'](2)")
 def q_default_stage(ds): return ds.Select("lambda e, *, k=scale_impl_c09(1.5, by=4.0): e.met() * k")
 '''
 
@@ -519,6 +547,9 @@ def directed(ctx):
         "q_md_nested2": ([("method",), ("method",)], ["method", "method"], "k.eta() > j.eta()", None),
         "q_default_nested": ([("method",), ("func",)], ["method", "func"], "cut=scale_impl_c09(e.met(), 2.0)", None),
         "q_default_stage": ([("func",)], ["func"], "k=scale_impl_c09(1.5, 4.0)", None),
+        "q_prop_other": ([("prop2",)], ["prop2"], "attr(2)", "['b']"),
+        "q_duck_collection": ([("method",)], ["method"], "j.pt()", None),
+        "q_duck_collection_where": ([("method",), ("method",)], ["method", "method"], "j.eta() > 1", None),
     }
     for name, (calls, mds, must_have, must_not_have) in want.items():
         ctx.case(f"directed:{name}", True)
